@@ -374,7 +374,23 @@ fn run_cli_inner(c: &CliCase, _st: &mut RunStats) -> Verdict {
     let run_binary = |argv: &[String]| -> Result<(), String> {
         // `bigtools <subcommand> <args>`: the tool name becomes the subcommand
         let bin = binary.as_ref().unwrap();
-        let out = std::process::Command::new(bin).args(argv).output().map_err(|e| format!("cannot run {}: {}", bin, e))?;
+        // half of the time through a link named like the kent tool (dispatch on the program name, mixed case)
+        let kent = match argv[0].as_str() {
+            "bedgraphtobigwig" => "bedGraphToBigWig",
+            "bedtobigbed" => "bedToBigBed",
+            "bigwigtobedgraph" => "bigWigToBedGraph",
+            "bigbedtobed" => "bigBedToBed",
+            other => other,
+        };
+        let link = dir.path().join(kent);
+        let use_link = (c.nthreads as usize + c.read_threads as usize + c.chroms.len()) % 2 == 0
+            && (link.exists() || std::os::unix::fs::symlink(bin, &link).is_ok());
+        let out = if use_link {
+            std::process::Command::new(&link).args(&argv[1..]).output()
+        } else {
+            std::process::Command::new(bin).args(argv).output()
+        }
+        .map_err(|e| format!("cannot run {}: {}", bin, e))?;
         if out.status.success() {
             Ok(())
         } else {
